@@ -3082,6 +3082,9 @@ _SRC_PASS = {"clone", "cloned", "unwrap", "expect", "to_vec", "to_owned", "unwra
              "get_mut", "borrow", "as_deref", "unwrap_or_else", "unwrap_or", "ok", "map", "and_then", "into"}
 
 
+_SRC_THROUGH = set()      # call paths whose first argument is passed through (set by the rule that needs it)
+
+
 def _value_sources(e, binds, depth=0):
     """terminal producers a value is built from: ("call", path) | ("self", field) | ("param", name) | ("other", what)"""
     e = hirq.strip(e)
@@ -3114,7 +3117,7 @@ def _value_sources(e, binds, depth=0):
     if k == "call":
         f = hirq.strip(e["f"])
         p = f.get("path") or ""
-        if (p in ("core::option::Option::Some", "core::result::Result::Ok") or p.endswith(("Try::branch", "IntoIterator::into_iter", "From::from", "Into::into"))) and e["args"]:
+        if (p in ("core::option::Option::Some", "core::result::Result::Ok") or p.endswith(("Try::branch", "IntoIterator::into_iter", "From::from", "Into::into")) or p in _SRC_THROUGH) and e["args"]:
             return _value_sources(e["args"][0], binds, depth + 1)
         return {("call", p)}
     if k == "match":
@@ -3911,4 +3914,169 @@ def syn6(ctx, unit=None, prefix="asca::word::Word::", floor=12):
             k += 1
     if n < floor:
         raise AnchorMissing("SYN-6: %d reads of the input text found in Word::fill_segments / setup (expected >= %d)" % (n, floor))
+    return r
+
+
+
+# ---------------------------------------------------------------- CLI-14: files are read as they are, the alias file is the one named
+
+def cli14(ctx):
+    """(a) `util::file_read`, the one reader behind the .rsca / .wsca / .alias / config parsers, returns what
+    `fs::read_to_string` gave, verbatim: the parsers are line- and blank-line-sensitive, so a rewrite of the text (CR to
+    LF turns every CRLF into a blank line) changes what every file means. (b) The path handed to `parse_alias` in
+    `run::get_input` and `convert::from_asca` comes from the `-l` / `-a` option alone (through `util::validate`): without
+    the option there are no aliases -- not whatever `.alias` file happens to lie in the working directory."""
+    global _SRC_THROUGH
+    r = RuleResult("CLI-14", "cli::util::file_read returns fs::read_to_string's text verbatim; the alias file parsed by run / conv asca is the one named by the option, nothing else", floor=3)
+    bn = ctx.bin
+    b = ctx.fn(bn, "asca_bin::cli::util::file_read")
+    binds = Bindings(b.hir["body"], b.hir.get("params"))
+    rets = [b.hir["body"]] + [y["a"] for y in hirq.walk(b.hir["body"]) if y["e"] == "ret" and y.get("a") is not None and not y.get("exp")]
+    srcs = set()
+    for v in rets:
+        srcs |= _value_sources(v, binds)
+    # the error arm: Err(map_io_error(e)) is a call of a local function; only the Ok payload matters
+    oks = set()
+    for y in hirq.walk(b.hir["body"]):
+        if y["e"] == "call" and (hirq.strip(y["f"]).get("path") or "") == "core::result::Result::Ok" and y["args"]:
+            oks |= _value_sources(y["args"][0], binds)
+    good = {s for s in oks if s[0] == "call" and s[1].endswith("fs::read_to_string")}
+    ok = bool(oks) and oks == good
+    r.inst("file_read: the text returned is fs::read_to_string's result, unedited", fn_loc(b), "ok" if ok else "report")
+    if not ok:
+        r.report("CLI-14|file_read", fn_loc(b), b.path,
+                 "file_read does not return the file's text verbatim (built from %s): every reader is line-oriented and blank lines carry meaning (a blank line ends a described rule group, is filed as an empty alias, is an empty word), so e.g. turning CR into LF makes every CRLF file parse to different words, rules and aliases"
+                 % ", ".join(sorted("%s %s" % s_ for s_ in oks - good)) or "nothing traceable")
+    _SRC_THROUGH = {"asca_bin::cli::util::validate"}
+    try:
+        n = 0
+        for path in ("asca_bin::cli::run::get_input", "asca_bin::cli::convert::from_asca"):
+            f = ctx.fn(bn, path)
+            fb = Bindings(f.hir["body"], f.hir.get("params"))
+            pn = [p for p in (f.param_names or []) if p == "alias"]
+            if not pn:
+                raise AnchorMissing("CLI-14: %s has no `alias` parameter" % path)
+            for y in hirq.walk(f.hir["body"]):
+                if y["e"] == "call" and (hirq.strip(y["f"]).get("path") or "").endswith("parse::parse_alias") and y["args"]:
+                    n += 1
+                    ss = _value_sources(y["args"][0], fb)
+                    ok = ss == {("param", "alias")}
+                    short = path.rsplit("::", 1)[-1]
+                    r.inst("%s: the alias file parsed is the one the option names" % short, fn_loc(f, y.get("ln")), "ok" if ok else "report")
+                    if not ok:
+                        r.report("CLI-14|%s|alias-path" % short, fn_loc(f, y.get("ln")), path,
+                                 "the path given to parse_alias is not just the `alias` option (it is built from %s): without the option a stray `.alias` file of the working directory is picked up, so `conv json` (which writes no alias file for a project without aliases) followed by `conv asca` no longer reproduces the project"
+                                 % ", ".join(sorted("%s %s" % s_ for s_ in ss if s_ != ("param", "alias"))))
+        if n < 3:
+            raise AnchorMissing("CLI-14: %d calls of parse_alias in get_input / from_asca (expected 3)" % n)
+    finally:
+        _SRC_THROUGH = set()
+    return r
+
+
+# ---------------------------------------------------------------- CLI-15: "the original" words / aliases are the root's
+
+def cli15(ctx):
+    """`conv tag --recurse` exports the history of a tag: the rule files of all its ancestors, run on the ROOT tag's words
+    with the ROOT tag's deromanisers. seq::get_orig_words / get_orig_alias_into read `.words` / `.alias` of a config
+    only where that same config's `from` is known to be None (the else of `if let Some(..) = &c.from`, or after a
+    `while let Some(..) = &c.from` walk) -- one `%` hop is not the root."""
+    r = RuleResult("CLI-15", "seq::get_orig_words / get_orig_alias_into read a config's words / alias only where that config has no `%` reference (it is the root)", floor=2)
+    bn = ctx.bin
+    n = 0
+    for fn_, field in (("asca_bin::cli::seq::get_orig_words", "words"), ("asca_bin::cli::seq::get_orig_alias_into", "alias")):
+        b = ctx.fn(bn, fn_)
+        root = b.hir["body"]
+        par = hirq.parent_map(root)
+
+        def base_of(e):
+            e = hirq.strip(e)
+            while isinstance(e, dict) and e.get("e") in ("unary",) and e.get("op") == "Deref":
+                e = hirq.strip(e["a"])
+            return (e.get("local"), e.get("hid")) if isinstance(e, dict) and e.get("e") == "path" and "local" in e else None
+
+        def from_test_base(cond):
+            c = hirq.strip(cond)
+            if c.get("e") != "letcond":
+                return None, None
+            init = hirq.strip(c["init"])
+            while isinstance(init, dict) and init.get("e") == "mcall" and init["name"] in ("as_ref", "as_deref", "clone") and not init["args"]:
+                init = hirq.strip(init["recv"])
+            if init.get("e") == "field" and init["name"] == "from":
+                pk = [q.get("path") for q in hirq.flat_pats(c["pat"])]
+                return base_of(init["a"]), pk
+            return None, None
+        for x in hirq.walk(root):
+            if x["e"] != "field" or x["name"] != field or not (x.get("of_ty") or "").lstrip("&").endswith("ASCAConfig"):
+                continue
+            n += 1
+            base = base_of(x["a"])
+            ok = False
+            child, p = x, par.get(id(x))
+            while p is not None and not ok:
+                if p.get("e") == "if":
+                    tb, pk = from_test_base(p["cond"])
+                    if tb is not None and tb == base:
+                        in_else = p.get("else") is not None and (p["else"] is child or any(y is child for y in hirq.walk(p["else"])))
+                        in_then = p["then"] is child or any(y is child for y in hirq.walk(p["then"]))
+                        if (in_else and pk == ["core::option::Option::Some"]) or (in_then and pk == ["core::option::Option::None"]):
+                            ok = True
+                if p.get("e") == "block" and not ok:
+                    # after a `while let Some(..) = &base.from { .. }` loop in the same block
+                    items = list(p.get("stmts", [])) + ([p["tail"]] if p.get("tail") is not None else [])
+                    for st in items:
+                        if st is child or any(y is child for y in hirq.walk(st)):
+                            break
+                        s0 = hirq.strip(st)
+                        if s0.get("e") == "loop":
+                            for y in hirq.walk(s0):
+                                if y["e"] == "if":
+                                    tb, pk = from_test_base(y["cond"])
+                                    if tb is not None and base is not None and tb[0] == base[0] and pk == ["core::option::Option::Some"] and any(z["e"] == "break" for z in hirq.walk(y.get("else") or {})):
+                                        ok = True
+                child, p = p, par.get(id(p))
+            short = fn_.rsplit("::", 1)[-1]
+            r.inst("%s: `.%s` is read from a config whose `from` is None" % (short, field), fn_loc(b, x.get("ln")), "ok" if ok else "report")
+            if not ok:
+                r.report("CLI-15|%s|%s" % (short, field), fn_loc(b, x.get("ln")), fn_,
+                         "`.%s` is read from a config that may itself have a `%%` reference: the walk stops before the root, so for a tag two or more hops from the root `conv tag --recurse` exports the wrong %s and the exported history no longer reproduces what `seq` wrote" % (field, "words" if field == "words" else "deromanisers"))
+    if n < 2:
+        raise AnchorMissing("CLI-15: %d reads of .words / .alias in get_orig_words / get_orig_alias_into (expected >= 2)" % n)
+    return r
+
+
+# ---------------------------------------------------------------- CLI-16: a blank line ends a group only after its description
+
+def cli16(ctx):
+    """The manual: "Empty lines are allowed" inside a rule group (its own Grimm's-law example has one). In parse_rsca a
+    blank line closes the current group only when the group already has its `#` description; otherwise it is skipped.
+    The `push` of the group in the blank-line branch sits under a test of the description."""
+    r = RuleResult("CLI-16", "parse::parse_rsca: in the blank-line branch the current group is pushed only under a test of its description (blank lines between the rules of a group do not split it)", floor=1)
+    bn = ctx.bin
+    b = ctx.fn(bn, "asca_bin::cli::parse::parse_rsca")
+    root = b.hir["body"]
+    par = hirq.parent_map(root)
+    n = 0
+    for x in hirq.walk(root):
+        if x["e"] != "if":
+            continue
+        c = hirq.strip(x["cond"])
+        # the branch for an empty line: the condition is `<line>.is_empty()` on a str
+        if not (c.get("e") == "mcall" and c["name"] == "is_empty" and (c.get("rty") or "").lstrip("&") == "str"):
+            continue
+        for y in hirq.walk(x["then"]):
+            if y["e"] == "mcall" and y["name"] == "push" and "RuleGroup" in (y.get("rty") or ""):
+                n += 1
+                ok = False
+                p = par.get(id(y))
+                while p is not None and p is not x:
+                    if p.get("e") == "if" and any(z["e"] == "field" and z["name"] == "description" for z in hirq.walk(p["cond"])):
+                        ok = True
+                    p = par.get(id(p))
+                r.inst("parse_rsca: a blank line pushes the group only after its description", fn_loc(b, y.get("ln")), "ok" if ok else "report")
+                if not ok:
+                    r.report("CLI-16|parse_rsca|blank-line-push", fn_loc(b, y.get("ln")), b.path,
+                             "a blank line closes the current rule group whether or not its description was read: a named group with a blank line between its rules is split into the named group and an anonymous rest, so `! {'name'}` no longer removes, and `~ {'name'}` no longer keeps, the rules after the blank line")
+    if n < 1:
+        raise AnchorMissing("CLI-16: parse_rsca has no `push` of a rule group in a blank-line branch")
     return r
